@@ -70,6 +70,11 @@ func localRpcSetup(s *rt.Sim, tier string) func() {
 				if chance("op", 1, 5) {
 					sleep(oneOf("op", 10*time.Millisecond, 500*time.Millisecond))
 				}
+				// the hard-fork "current era" query ([0, [2, [1]]]) is answered with a bare
+				// integer: here the tag itself
+				if bytes.Equal(q.Cbor(), []byte{0x82, 0x00, 0x82, 0x02, 0x81, 0x01}) {
+					return queryCounter, nil
+				}
 				return []any{1, queryCounter}, nil
 			}),
 		)
@@ -197,6 +202,13 @@ func localRpcSetup(s *rt.Sim, tier string) func() {
 							c.what = "acquire"
 							c.inv = rt.Stamp()
 							c.err = q.AcquireVolatileTip()
+						case 1:
+							// another kind of query (the client has an era cache: the answer must
+							// still come from the request this call sent)
+							c.what = "query"
+							c.inv = rt.Stamp()
+							era, err := q.GetCurrentEra()
+							c.got, c.err = int64(era), err
 						default:
 							c.what = "query"
 							c.inv = rt.Stamp()
